@@ -96,6 +96,8 @@ program make_program(vh::rng& r, bool small, const vh::args& a) {
   bytes B(8, '\0');
   for (auto& c : B) c = static_cast<char>(r.below(256));
   std::set<bytes, vm::byte_less> init, uni;
+  std::vector<std::pair<int, bytes>> structural;  // writer operations that restructure nodes
+  std::vector<bytes> read_targets;                // keys whose lookups pass through the restructured nodes
   auto with = [](bytes k, std::size_t pos, unsigned v) { k[pos] = static_cast<char>(v); return k; };
   if (famsel < 8) {
     p.family = "root";
@@ -104,9 +106,11 @@ program make_program(vh::rng& r, bool small, const vh::args& a) {
     if (n >= 1) init.insert(k1);
     if (n >= 2) init.insert(k2);
     uni = {k1, k2, k3};
+    structural = {{OP_INSERT, k1}, {OP_INSERT, k2}, {OP_REMOVE, k1}, {OP_REMOVE, k2}, {OP_INSERT, k3}};
+    read_targets = {k1, k2};
   } else {
     static const unsigned fans[] = {2, 2, 3, 4, 4, 5, 5, 16, 17, 48, 49};
-    const unsigned f = fans[r.below(small ? 7 : 11)];
+    const unsigned f = fans[r.below(small && !r.chance(0.25) ? 7 : 11)];
     const std::size_t p0 = r.below(4), p1 = p0 + 1 + r.below(3), p2 = p1 < 7 ? p1 + 1 + r.below(7 - p1) : 7;
     const int top = static_cast<int>(r.below(3));  // 0: hot node is the root; 1: one sibling leaf; 2: two sibling leaves
     const bool deep = p1 < 7 && r.chance(0.6);
@@ -120,8 +124,8 @@ program make_program(vh::rng& r, bool small, const vh::args& a) {
     for (const unsigned v : hv) hot.push_back(with(Z, p1, v));
     for (const auto& k : hot) init.insert(k);
     // universe: a few hot leaves, absent hot bytes
-    for (int i = 0; i < 3 && i < static_cast<int>(hot.size()); ++i) uni.insert(hot[r.below(hot.size())]);
-    for (int i = 0; i < 2; ++i) { unsigned v; do v = static_cast<unsigned>(r.below(256)); while (used.count(v) != 0); used.insert(v); uni.insert(with(Z, p1, v)); }
+    for (int i = 0; i < 3 && i < static_cast<int>(hot.size()); ++i) { const auto& hk = hot[1 + r.below(hot.size() - 1)]; uni.insert(hk); structural.emplace_back(OP_REMOVE, hk); read_targets.push_back(hk); }
+    for (int i = 0; i < 2; ++i) { unsigned v; do v = static_cast<unsigned>(r.below(256)); while (used.count(v) != 0); used.insert(v); uni.insert(with(Z, p1, v)); structural.emplace_back(OP_INSERT, with(Z, p1, v)); }
     if (deep) {
       // the first hot child becomes an inner node with two leaves
       const bytes d1 = with(hot[0], p2, 0x11), d2 = with(hot[0], p2, 0x77), d3 = with(hot[0], p2, 0xEE);
@@ -132,16 +136,25 @@ program make_program(vh::rng& r, bool small, const vh::args& a) {
       uni.insert(d1);
       uni.insert(d2);
       uni.insert(d3);
+      structural.emplace_back(OP_REMOVE, d1);
+      structural.emplace_back(OP_INSERT, d3);
+      read_targets.push_back(d1);
+      read_targets.push_back(d2);
+      read_targets.push_back(d2);
     }
     if (top >= 1) {
       const bytes s1 = with(B, p0, static_cast<unsigned char>(B[p0]) ^ 0x80U);
       init.insert(s1);
       uni.insert(s1);
+      for (int i = 0; i < (top == 1 ? 3 : 1); ++i) structural.emplace_back(OP_REMOVE, s1);  // top == 1: collapse with prefix prepend onto the hot node
       if (top == 2) { const bytes s2 = with(B, p0, static_cast<unsigned char>(B[p0]) ^ 0x40U); init.insert(s2); uni.insert(s2); }
       uni.insert(with(B, p0, static_cast<unsigned char>(B[p0]) ^ 0x20U));  // absent top sibling
+      structural.emplace_back(OP_INSERT, with(B, p0, static_cast<unsigned char>(B[p0]) ^ 0x20U));
     }
-    if (p1 - p0 >= 2) uni.insert(with(Z, p0 + 1, static_cast<unsigned char>(Z[p0 + 1]) ^ 0x33U));  // diverges inside the hot node's prefix
-    else if (p0 > 0) uni.insert(with(Z, p0 - 1, static_cast<unsigned char>(Z[p0 - 1]) ^ 0x33U));
+    bytes split;
+    if (p1 - p0 >= 2) split = with(Z, p0 + 1, static_cast<unsigned char>(Z[p0 + 1]) ^ 0x33U);  // diverges inside the hot node's prefix
+    else if (p0 > 0) split = with(Z, p0 - 1, static_cast<unsigned char>(Z[p0 - 1]) ^ 0x33U);
+    if (!split.empty()) { uni.insert(split); structural.emplace_back(OP_INSERT, split); structural.emplace_back(OP_INSERT, split); }
   }
   u64 vid = 1000;
   for (const auto& k : init) p.initial[k] = vid++;
@@ -159,15 +172,24 @@ program make_program(vh::rng& r, bool small, const vh::args& a) {
     for (u64 i = 0; i < n; ++i) {
       pop o;
       const auto nu = p.universe.size();
+      auto index_of = [&](const bytes& k) { return static_cast<int>(std::lower_bound(p.universe.begin(), p.universe.end(), k, vm::byte_less{}) - p.universe.begin()); };
       o.key = static_cast<int>(r.below(nu));
       o.key2 = static_cast<int>(r.below(nu));
-      if (r.chance(scan_w) || (g_prop == "C09" && t == 0 && i == 0)) {
+      const bool want_scan = r.chance(scan_w) || (g_prop == "C09" && t == 0 && i == 0);
+      if (!structural.empty() && !want_scan && ((t == (g_prop == "C09" ? 1 : 0) && i == 0 && r.chance(0.85)) || r.chance(0.3))) {
+        // a writer operation that restructures a node
+        const auto& so = structural[r.below(structural.size())];
+        o.kind = so.first;
+        o.key = index_of(so.second);
+      } else if (want_scan) {
         o.kind = OP_SCAN + static_cast<int>(r.below(3));
         o.fwd = r.chance(0.5);
         if (r.chance(0.3)) o.halt_after = 1 + static_cast<int>(r.below(4));
+        if (!read_targets.empty() && r.chance(0.5)) o.key = index_of(read_targets[r.below(read_targets.size())]);
       } else {
         const auto x = r.below(100);
-        o.kind = x < 34 ? OP_GET : (x < 67 ? OP_INSERT : OP_REMOVE);
+        o.kind = x < 40 ? OP_GET : (x < 70 ? OP_INSERT : OP_REMOVE);
+        if (o.kind == OP_GET && !read_targets.empty() && r.chance(0.7)) o.key = index_of(read_targets[r.below(read_targets.size())]);
       }
       o.quiesce_after = r.chance(0.35);
       ops.push_back(o);
